@@ -404,8 +404,32 @@ def run(ctx: common.Ctx):
         for user in (True, False):
             for d in ("StructureType.txt", "structuretype.j2", "CompositeType.j2.bak", "Any.J2", "readme.md", "deep/er/notaclass.j2"):
                 s.add_decoy(user, d)
-    lookup_cases = []   # (LookupCase, kind, extra)
+    lookup_cases = []   # (LookupCase, kind, extra), flushed to the model in batches
     cold_cache = {}
+    nseq = [0]
+
+    def flush_lookups(cases):
+        """Model side: the same look-up sequences through the driver; results and final cache must agree."""
+        answers = ask([lc.line for lc in cases])
+        for lc, a in zip(cases, answers):
+            if a is None:
+                continue
+            ctx.traces += 1
+            m = parse_seq_answer(a)
+            if isinstance(m, str) or m[0] != lc.impl or m[1] != lc.cache:
+                ctx.disagree("type_to_template", {"mode": lc.mode, "fs": lc.fs, "pkg": lc.pk, "lookups": [getattr(c, "__name__", "?") for c in lc.classes],
+                                                  "request": lc.line if len(lc.line) < 600 else lc.line[:600] + "..."},
+                             m if isinstance(m, str) else {"results": m[0], "cache": sorted(m[1].items())},
+                             {"results": lc.impl, "cache": sorted(lc.cache.items())})
+        nseq[0] += len(cases)
+
+    def maybe_flush():
+        if len(lookup_cases) >= 20000:
+            if not ctx.samples:
+                ctx.sample({"stream": "lookup", **describe(lookup_cases[len(lookup_cases) // 2][0], names)})
+            flush_lookups([lc for lc, _, _ in lookup_cases])
+            lookup_cases.clear()
+            cold_cache.clear()
 
     def one_config(src, target, all_for_warm, want_modes, fixed_warm=None):
         """All look-ups for the current directory state and one target class."""
@@ -500,6 +524,7 @@ def run(ctx: common.Ctx):
                 modes += [rng.choice(["fs", "pkg", "first"])]
             one_config(src, target, relatives, modes)
             nconf += 1
+            maybe_flush()
     # random: global assignments over all classes, both layouts, longer warm-ups
     nrand = 300 if ctx.quick else 4000
     for _ in range(nrand):
@@ -510,7 +535,11 @@ def run(ctx: common.Ctx):
         target = rng.choice(table_classes)
         one_config(src, target, table_classes, [rng.choice(["both", "both", "fs", "pkg", "first"])])
         nconf += 1
-    ctx.extra["lookup_domain"] = {"corpus": ncorpus, "configurations": nconf, "lookup_sequences": len(lookup_cases),
+    if lookup_cases and not ctx.samples:
+        ctx.sample({"stream": "lookup", **describe(lookup_cases[len(lookup_cases) // 2][0], names)})
+    flush_lookups([lc for lc, _, _ in lookup_cases])
+    lookup_cases.clear()
+    ctx.extra["lookup_domain"] = {"corpus": ncorpus, "configurations": nconf, "lookup_sequences": nseq[0],
                                   "classes": len(table_classes), "K": K}
     # listing sanity (harness bookkeeping == what Jinja lists), on the final state
     for s in srcs:
@@ -584,22 +613,8 @@ def run(ctx: common.Ctx):
     del clss
     gc.collect()
 
-    # ---- model side of C and D ------------------------------------------------------------------------------------
-    all_lc = [lc for lc, _, _ in lookup_cases] + syn_cases
-    answers = ask([lc.line for lc in all_lc])
-    for lc, a in zip(all_lc, answers):
-        if a is None:
-            continue
-        ctx.traces += 1
-        m = parse_seq_answer(a)
-        if isinstance(m, str) or m[0] != lc.impl or m[1] != lc.cache:
-            ctx.disagree("type_to_template", {"mode": lc.mode, "fs": lc.fs, "pkg": lc.pk, "lookups": [getattr(c, "__name__", "?") for c in lc.classes],
-                                              "request": lc.line if len(lc.line) < 600 else lc.line[:600] + "..."},
-                         m if isinstance(m, str) else {"results": m[0], "cache": sorted(m[1].items())},
-                         {"results": lc.impl, "cache": sorted(lc.cache.items())})
-    if lookup_cases:
-        lc = lookup_cases[len(lookup_cases) // 2][0]
-        ctx.sample({"stream": "lookup", **describe(lc, names)})
+    # ---- model side of D ----------------------------------------------------------------------------------------------
+    flush_lookups(syn_cases)
 
     # ================================================================================================================
     # E. get_source
